@@ -17,6 +17,7 @@ PROP = {
             "thorough": {"gen": [(30000, 60)], "enum": [(16,)]},
             "timeout": 1500,
         }],
+        "direct": [{"component": "codec", "timeout": 900}],
         "rule": "scripts drive the real sonic.CodecConn[[]byte,[]byte] with the real codec/frame.Codec over the scripted in-memory "
                 "transport (harness/memstream.go), both directions, blocking and asynchronous APIs: payload sequences with sizes "
                 "0,1,2,3,4,5,255..257, around the 512-byte initial capacity, 1020..2000 / 65535..70000, framed by the generator and cut "
@@ -37,7 +38,7 @@ PROP = {
             "frame.Codec and CodecConn are wired with the same source buffer (NewCodec(src), NewCodecConn(.., src, dst)), as the package documents",
             "at most one read and one write in flight per connection (a second call is refused by the harness and reported as busy)",
             "the capacity append() chooses when Reserve grows a buffer is an environment value (read off the trace, universally quantified in the theorems)",
-            "payloads of exactly limit / limit-1 bytes (1 GiB) are exercised through their prefix only (acceptance + reservation), not transferred",
+            "payloads of exactly limit / limit-1 bytes (1 GiB) cannot travel through a hex trace: in scripts they are exercised through their prefix (acceptance + reservation); the thorough tier adds a direct in-process round trip of limit-1 and limit bytes and the refusal of limit+1 by WriteNext (harness codec direct)",
             "lengths are below 2^63, so Go int arithmetic is exact (Nat in the model)",
         ],
         "manifest": {
